@@ -320,6 +320,10 @@ type DestScript struct {
 	GateOpen     bool
 	GateTeardown bool
 	Faults       bool
+	// Reject, when non-nil, FORCES the answer of every ack gate: exactly the records listed here ("<src>:<idx>" for an
+	// unsplit record, "<src>:<idx>:<k>/<n>" for piece k of n) are rejected, all others confirmed (input enumeration
+	// rather than schedule enumeration, used by C08).
+	Reject map[string]bool
 }
 
 // Dest is a scripted SDK-level destination plugin.
@@ -417,6 +421,25 @@ func (d *Dest) Run(ctx context.Context, stream pconnector.DestinationRunStream) 
 		}
 		if len(menu) == 0 {
 			menu = []string{"ok"}
+		}
+		if d.S.Reject != nil {
+			bits := make([]byte, len(recs))
+			any := false
+			for i, r := range recs {
+				src, idx, _, piece := Ident(r)
+				key := src + ":" + strconv.Itoa(idx)
+				if piece != "" {
+					key += ":" + piece
+				}
+				bits[i] = '0'
+				if d.S.Reject[key] {
+					bits[i], any = '1', true
+				}
+			}
+			menu = []string{"ok"}
+			if any {
+				menu = []string{"n:" + string(bits)}
+			}
 		}
 		k++
 		a := d.W.Gate(ctx, d.S.Name+".ack", menu...)
